@@ -5,6 +5,7 @@ import H3.Lemmas.FrameStreamFast
 import H3.Lemmas.GenAgreeReq
 import H3.Lemmas.GenAgreeCtl
 import H3.Lemmas.FramingStrict
+import H3.Lemmas.FrameStreamSplit
 /-! # C02 — frame boundaries follow RFC 9114 §7.1 exactly, independent of chunking
 
 Property theorems only.  Models: `H3.Frame` (`Frame::decode`, `proto/frame.rs`), `H3.FS`
@@ -294,6 +295,48 @@ example : runCalls {} [.chunk [0x00], .chunk [0x02, 0xaa, 0xbb, 0x07], .chunk [0
   decide +kernel
 example : (run frameDec (.hdr []) [0x00, 0x02, 0xaa, 0xbb, 0x07, 0x01, 0x05]).2 =
     [.frame (.data 2), .byte 0xaa, .byte 0xbb, .frame (.goaway 5)] := by decide
+
+/-- **`split()` is invisible to the frame layer.**  The receive half that `FrameStream::split`
+    returns carries the buffered bytes, the end-of-stream flag, the decoder's `expected` memo and
+    `remaining_data` unchanged (`St.split s = s`).  Hence (1) for every starting state, every
+    transport script and every call sequence over `poll_next` / `poll_data` / `split`, the answers
+    are those of the same sequence without the splits; (2) the same for a request-body reader
+    (`runR`: `poll_recv_data` again and again — the only way the API reaches `split`): answers,
+    final state and rest of the script do not depend on where, or how often, it splits; (3) with
+    splits anywhere, the frames and data bytes handed out — also those behind `poll_recv_data` — are
+    a prefix of the one token sequence the reference automaton emits on the bytes of the script:
+    in particular, after a split in the middle of a DATA payload no payload byte is read as a
+    frame header. -/
+theorem C02_split_is_invisible :
+    (∀ s : St, s.split = s) ∧
+    (∀ (s : St) (script : List Ev) (cs : List CallS),
+      runCallsS s script cs = runCalls s script (CallS.erase cs)) ∧
+    (∀ (s : St) (script : List Ev) (cs cs' : List CallR), CallR.erase cs = CallR.erase cs' →
+      runR s script cs = runR s script cs') ∧
+    (∀ (sc : List Ev), ScriptOK sc → ∀ cs : List CallS,
+      (runCallsS {} sc cs).flatMap Out.toks <+: (run frameDec (.hdr []) (evBytes sc)).2) ∧
+    (∀ (sc : List Ev), ScriptOK sc → ∀ cs : List CallR,
+      (runR {} sc cs).raw.flatMap Out.toks <+: (run frameDec (.hdr []) (evBytes sc)).2) := by
+  refine ⟨split_eq, fun s script cs => runCallsS_erase cs s script,
+    fun s script cs cs' h => runR_splits_anywhere cs cs' h s script, ?_, ?_⟩
+  · intro sc hsc cs
+    rw [runCallsS_erase]
+    exact (C02_runCalls_chunking_independent sc sc hsc hsc rfl (CallS.erase cs) []).1
+  · intro sc hsc cs
+    obtain ⟨s1, r1, hr1⟩ := runR_reach sc cs [] {} sc Reach.init
+    simpa using (C02_tokens_function_of_bytes frameDec C02_decode_laws sc sc hsc hsc rfl hr1 hr1).1
+
+-- DATA(4) aa bb | cc dd: a split after the first piece (remaining_data = 2, nothing buffered) and the
+-- reader goes on inside the payload; a receive half that forgot `remaining_data` would decode `cc dd`
+-- as a frame header
+example : (runR {} [.chunk [0x00, 0x04, 0xaa, 0xbb], .chunk [0xcc, 0xdd], .fin] [.recv, .split, .recv, .recv]).outs =
+    [.data [0xaa, 0xbb], .data [0xcc, 0xdd], .none] := by decide +kernel
+example : runCallsS {} [.chunk [0x00, 0x04, 0xaa, 0xbb], .chunk [0xcc, 0xdd], .fin]
+      [.next, .split, .data, .split, .data, .data, .split, .next] =
+    [.frame (.data 4), .data [0xaa, 0xbb], .data [0xcc, 0xdd], .none, .none] := by decide +kernel
+example : (pollNext frameDec { ({ remaining := 2 } : St).split with remaining := 0 } [.chunk [0xcc, 0xdd], .fin]).1 ≠
+    (pollData (F := H3.Frame.Frame) (E := H3.Frame.FrameErr) ({ remaining := 2 } : St).split [.chunk [0xcc, 0xdd], .fin]).1 := by
+  decide +kernel
 
 /-- No byte is interpreted twice or as both header and payload: in every reachable
     configuration the consumed bytes are a concatenation of whole frames (buffers on which the
